@@ -1371,4 +1371,264 @@ theorem gapsOKC_top (l : List (Str × XTok)) (g0 : Str) (t0 : XTok) (ok : okX .c
       rw [← e.1.1]; simp)
   simpa using this
 
+/-! ## 8. the texts: source tokens, comment texts, the default header -/
+
+theorem tbl_get_mem {α} {i : Nat} {a : α} : ∀ {t : Tbl α}, Tbl.get? i t = some a → (i, a) ∈ t
+  | [], h => by simp [Tbl.get?] at h
+  | (j, b) :: t, h => by
+    simp only [Tbl.get?] at h
+    split at h
+    · next e => cases h; subst e; exact List.mem_cons_self
+    · exact List.mem_cons_of_mem _ (tbl_get_mem h)
+
+theorem kwComment_in_ph (l : Bool) (i : Nat) : isInfix C12.kwComment (phWord l i) = true := by
+  have h1 : isInfix C12.kwComment (kwOf l) = true := by cases l <;> decide
+  obtain ⟨a, b, e⟩ := C01.isInfix_iff.mp h1
+  exact C01.isInfix_iff.mpr ⟨a, b ++ padSix i, by simp only [phWord]; rw [show (if l then kwLine else kwBlock) = kwOf l from rfl, e]; simp⟩
+
+/-- a text without the word `COMMENT` contains no placeholder word -/
+theorem noPh_of_noComment {s : Str} (h : isInfix C12.kwComment s = false) : NoPh s := by
+  intro l i
+  cases hc : isInfix (phWord l i) s with
+  | false => rfl
+  | true => rw [C02.Front.isInfix_trans (kwComment_in_ph l i) hc] at h; cases h
+
+theorem tokGood_of_ok {t : STok} (h : C02.TokOK t) : C01.TokGood t := by
+  cases t with
+  | word w =>
+    rcases h with h | h
+    · exact C01.tokGood_srcWord h
+    · obtain ⟨c, rfl, hc⟩ := C02.delimTok_inv h
+      exact C01.tokGood_word (by simp) (by
+        intro x hx
+        simp only [List.mem_singleton] at hx
+        subst hx
+        exact (C12.Stages.delim_ne x hc).2.2.2.2)
+  | quoted q b => exact C01.tokGood_quoted h
+
+theorem solid_of_good {t : STok} (h : C01.TokGood t) : Solid t.text := by
+  obtain ⟨a, z, htx, hz, hch⟩ := h
+  have ha : ∀ c ∈ a, c ≠ '\n' := fun c hc => (hch c (by rw [htx]; simp [hc])).1
+  have := C01.rts_solid hz [] a ha
+  refine ⟨⟨a, z, htx, hz⟩, fun c hc => (hch c hc).2, ?_, ?_⟩
+  · rw [htx]; simpa [C01.rts_nil] using this.2
+  · rw [htx]; simpa using this.1
+
+/-- a line comment as it stands in the table: `//` + a one-line text that does not end in white space (trailing white
+    space would be removed by `remove_trailing_spaces`) and contains no placeholder word -/
+def LineFull (full : Str) : Prop :=
+  ∃ x, full = '/' :: '/' :: x ∧ isLineCText x = true ∧ (∀ z, x.getLast? = some z → isWs z = false) ∧ NoPh full
+
+/-- a block comment as it stands in the table: `/*` + text + `*/`, no carriage return, no line with trailing white
+    space (`remove_trailing_spaces` leaves it alone), no placeholder word -/
+def BlockFull (full : Str) : Prop :=
+  ∃ x, full = '/' :: '*' :: x ++ ['*', '/'] ∧ isBlockCText x = true ∧ (∀ c ∈ full, c ≠ '\r') ∧ C01.rts full = full ∧
+    NoPh full
+
+theorem slash_facts : isWs '/' = false ∧ '/' ≠ '\n' := by decide
+
+theorem lineBreak_nl_cr : isLineBreak '\n' = true ∧ isLineBreak '\r' = true := by decide
+
+theorem solid_line {full : Str} (h : LineFull full) : Solid full := by
+  obtain ⟨x, rfl, hx, hlast, _⟩ := h
+  simp only [isLineCText, List.all_eq_true, Bool.not_eq_true'] at hx
+  have hnl : ∀ c ∈ '/' :: '/' :: x, c ≠ '\n' ∧ c ≠ '\r' := by
+    intro c hc
+    simp only [List.mem_cons] at hc
+    rcases hc with rfl | rfl | hc
+    · decide
+    · decide
+    · have := hx c hc
+      constructor
+      · rintro rfl; rw [lineBreak_nl_cr.1] at this; cases this
+      · rintro rfl; rw [lineBreak_nl_cr.2] at this; cases this
+  have hend : ∃ a z, '/' :: '/' :: x = a ++ [z] ∧ isWs z = false := by
+    rcases List.eq_nil_or_concat x with rfl | ⟨x', z, rfl⟩
+    · exact ⟨['/'], '/', rfl, slash_facts.1⟩
+    · exact ⟨'/' :: '/' :: x', z, by simp, hlast z (by simp)⟩
+  obtain ⟨a, z, e, hz⟩ := hend
+  have ha : ∀ c ∈ a, c ≠ '\n' := fun c hc => (hnl c (by rw [e]; simp [hc])).1
+  have := C01.rts_solid hz [] a ha
+  refine ⟨⟨a, z, e, hz⟩, fun c hc => (hnl c hc).2, ?_, ?_⟩
+  · rw [e]; simpa [C01.rts_nil] using this.2
+  · rw [e]; simpa using this.1
+
+theorem solid_block {full : Str} (h : BlockFull full) : Solid full := by
+  obtain ⟨x, rfl, _, hcr, hfix, _⟩ := h
+  refine ⟨⟨'/' :: '*' :: x ++ ['*'], '/', by simp, slash_facts.1⟩, hcr, hfix, ?_⟩
+  rw [List.cons_append, C01.blankHead_cons slash_facts.2, slash_facts.1]
+  rfl
+
+theorem wellC_line {full : Str} (h : LineFull full) : WellC (.cmt true full) := by
+  obtain ⟨x, rfl, _⟩ := h; exact ⟨x, rfl⟩
+
+theorem wellC_block {full : Str} (h : BlockFull full) : WellC (.cmt false full) := by
+  obtain ⟨x, rfl, _⟩ := h; exact ⟨x, rfl⟩
+
+/-! ### the default header as a block comment -/
+
+theorem hdr_noComment : isInfix C12.kwComment C12.hdrComment = false := by decide +kernel
+theorem hdr_noCr : ∀ c ∈ C12.hdrComment, c ≠ '\r' := by decide +kernel
+theorem hdr_rts : C01.rts C12.hdrComment = C12.hdrComment := by decide +kernel
+theorem hdrBody_text : isBlockCText C12.hdrBody = true := by decide +kernel
+
+theorem hdr_blockFull : BlockFull C12.hdrComment :=
+  ⟨C12.hdrBody, C12.hdrComment_shape, hdrBody_text, hdr_noCr, hdr_rts, noPh_of_noComment hdr_noComment⟩
+
+/-! ## 9. helpers for the writer theorem -/
+
+theorem substTokT_nil (l : Bool) (t : XTok) : substTokT l [] t = t := by
+  cases t <;> simp [substTokT, Tbl.get?]
+
+theorem ctxAfter_substTokT (l : Bool) (T : Tbl Str) (t : XTok) : ctxAfter (substTokT l T t) = ctxAfter t := by
+  cases t with
+  | tok s => rfl
+  | cmt l' full => rfl
+  | ph l' j pad =>
+    simp only [substTokT]
+    split
+    · next h =>
+      subst h
+      split
+      · cases l' <;> rfl
+      · rfl
+    · rfl
+
+theorem gapOK_substTokT (c : Ctx) (l : Bool) (T : Tbl Str) (t : XTok) (g : Str) :
+    gapOK c (substTokT l T t) g = gapOK c t g := by
+  cases t with
+  | tok s => rfl
+  | cmt l' full => rfl
+  | ph l' j pad =>
+    simp only [substTokT]
+    split
+    · split
+      · cases c <;> rfl
+      · rfl
+    · rfl
+
+theorem okX_mapT (l : Bool) (T : Tbl Str) : ∀ (lay : List (Str × XTok)) (c : Ctx),
+    okX c (lay.map fun p => (p.1, substTokT l T p.2)) = okX c lay
+  | [], _ => rfl
+  | (g, t) :: lay, c => by
+    simp only [List.map_cons, okX, ctxAfter_substTokT, gapOK_substTokT, okX_mapT l T lay]
+
+/-- the default header in front of a comment brings in no placeholder word -/
+theorem noPh_hdr_append {t : Str} (ht : NoPh t) : NoPh (nativeHeader ++ t) := by
+  intro l i
+  cases hc : isInfix (phWord l i) (nativeHeader ++ t) with
+  | false => rfl
+  | true =>
+    exfalso
+    obtain ⟨c0, P', hP, hc0⟩ := phWord_head l i
+    have hnl : '\n' ∉ phWord l i := fun h => (phWord_chars l i _ h).2.2.2.2.2.2.1 rfl
+    have hH := hdr_blockFull.2.choose_spec.2.2.2.2 l i
+    rw [C12.nativeHeader_split, List.append_assoc] at hc
+    rcases C12.infix_append_cases hc with h | h | ⟨p1, c2, p2, e1, _, _, hh⟩
+    · have := (noPh_of_noComment hdr_noComment) l i
+      rw [this] at h; cases h
+    · rcases C12.infix_append_cases h with h | h | ⟨p1, c2, p2, e1, hne1, hm, _⟩
+      · rw [hP] at h
+        have := C01.isInfix_cons_mem h
+        simp only [List.mem_singleton] at this
+        exact hnl (by rw [hP, this]; simp)
+      · rw [ht l i] at h; cases h
+      · obtain ⟨c, hcm⟩ := List.exists_mem_of_ne_nil _ hne1
+        have := hm c hcm
+        simp only [List.mem_singleton] at this
+        subst this
+        exact hnl (by rw [e1]; simp [hcm])
+    · simp only [List.singleton_append, List.head?_cons, Option.some.injEq] at hh
+      subst hh
+      exact hnl (by rw [e1]; simp)
+
+theorem word_head {w : Str} (h : isSrcWord w = true) : ∃ c s, w = c :: s ∧ isWs c = false := by
+  have hw := (C01.isSrcWord_iff.mp h).1
+  simp only [isWordTok, Bool.and_eq_true, Bool.not_eq_true', List.all_eq_true] at hw
+  cases w with
+  | nil => simp at hw
+  | cons c s => exact ⟨c, s, rfl, (hw.1.2 c (by simp)).1⟩
+
+/-- the raw output of the writer starts with a non-blank -/
+theorem fmt_head {d : Nat} {e : Key × Val} {r : Entries} (h : wshEs d (e :: r) = true) :
+    ∃ c s, fmtEntries .native 0 (e :: r) = c :: s ∧ isWs c = false := by
+  obtain ⟨k, v⟩ := e
+  have hsp : spaces (4 * 0) = [] := rfl
+  cases v with
+  | dict es =>
+    simp only [wshEs, Bool.and_eq_true] at h
+    obtain ⟨c, s, e, hc⟩ := word_head (C01.domKey_word h.1.1)
+    exact ⟨c, _, by simp only [fmtEntries, fline, hsp, e, List.nil_append, List.cons_append], hc⟩
+  | list xs =>
+    simp only [wshEs, Bool.and_eq_true] at h
+    obtain ⟨c, s, e, hc⟩ := word_head (C01.domKey_word h.1.1)
+    exact ⟨c, _, by simp only [fmtEntries, fline, hsp, e, List.nil_append, List.cons_append], hc⟩
+  | leaf x =>
+    simp only [wshEs, Bool.and_eq_true, Bool.or_eq_true, decide_eq_true_eq] at h
+    cases hp : phOf k x with
+    | some li =>
+      obtain ⟨l, i⟩ := li
+      obtain ⟨rfl, rfl, _⟩ := phOf_some hp
+      obtain ⟨c, s, e, hc⟩ := phWord_head l i
+      exact ⟨c, _, by simp only [fmtEntries, fline, hsp, formatKey, phWord_format, e, List.nil_append, List.cons_append], hc⟩
+    | none =>
+      rw [hp] at h
+      rcases h.1 with h1 | h1
+      · cases h1
+      · obtain ⟨c, s, e, hc⟩ := word_head (C01.domKey_word h1.1.1)
+        exact ⟨c, _, by simp only [fmtEntries, fline, hsp, C01.formatKey_eq_keyStr h1.1.1, e, List.nil_append,
+          List.cons_append], hc⟩
+
+theorem xtoks_nil {lvl : Nat} : ∀ {D : Entries}, xtoksEs lvl D = [] → D = []
+  | [], _ => rfl
+  | (k, .dict es) :: r, h => by simp [xtoksEs] at h
+  | (k, .list xs) :: r, h => by simp [xtoksEs] at h
+  | (k, .leaf x) :: r, h => by
+    simp only [xtoksEs, List.append_eq_nil_iff] at h
+    cases hp : phOf k x with
+    | some li => obtain ⟨l, i⟩ := li; rw [hp] at h; simp at h
+    | none => rw [hp] at h; simp at h
+
+/-- the raw output as a layout: first gap empty, final gap one line feed -/
+theorem raw_layout {D : Entries} (h : wshEs 1 D = true) (hne : D ≠ []) :
+    ∃ t r, (([] : Str), t) :: r |>.map Prod.snd = xtoksEs 0 D ∧
+      fmtEntries .native 0 D = layX (([], t) :: r) ['\n'] ∧ okX .cov (([], t) :: r) = true := by
+  rcases lays_entriesX 1 0 D h with ⟨hx, _⟩ | ⟨_, lay, hm, htxt, ok, _⟩
+  · exact absurd (xtoks_nil hx) hne
+  · cases D with
+    | nil => exact absurd rfl hne
+    | cons e D' =>
+      obtain ⟨c, s, hcs, hc⟩ := fmt_head h
+      cases lay with
+      | nil =>
+        rw [htxt] at hcs
+        simp only [layX, List.cons.injEq] at hcs
+        rw [← hcs.1] at hc; cases hc
+      | cons p lay' =>
+        obtain ⟨g, t⟩ := p
+        have hg : g = [] := by
+          cases g with
+          | nil => rfl
+          | cons y g' =>
+            rw [htxt] at hcs
+            simp only [layX, List.cons_append, List.cons.injEq] at hcs
+            simp only [okX, List.all_cons, Bool.and_eq_true] at ok
+            rw [← hcs.1, ok.1.1.1] at hc; cases hc
+        subst hg
+        exact ⟨t, lay', hm, htxt, ok⟩
+
+/-- outside the first id, the completed table and the table agree -/
+theorem substTokT_blockTbl {i0 : Nat} {t0 : Str} {B : Tbl Str} {t : XTok} (h : isPhX false i0 t = false) :
+    substTokT false (blockTbl ((i0, t0) :: B)) t = substTokT false ((i0, t0) :: B) t := by
+  cases t with
+  | tok s => rfl
+  | cmt l' full => rfl
+  | ph l' j pad =>
+    cases l' with
+    | true => simp [substTokT]
+    | false =>
+      have hj : ¬ i0 = j := by
+        simpa [isPhX] using h
+      simp [substTokT, blockTbl, Tbl.get?, hj]
+
 end DictIO.C12W
